@@ -721,7 +721,10 @@ impl BufferedDatabaseWriter {
         #[cfg(feature = "verif")]
         crate::verif_hooks::failpoint("before_commit");
         #[cfg(feature = "verif")]
-        crate::verif_hooks::failpoint_err("commit")?;
+        if let Err(e) = crate::verif_hooks::failpoint_err("commit") {
+            conn.execute("ROLLBACK", [])?;
+            return Err(e);
+        }
         if let Err(e) = conn.execute("COMMIT", []) {
             //the transaction is still open: without a rollback every later batch would fail to begin
             let _ = conn.execute("ROLLBACK", []);
